@@ -2,8 +2,8 @@
 import runner_props
 
 PROP = "C09"
-LEAN_MODULES = ["PamsProps.C09", "PamsProps.SimE2E", "PamsProps.SrcSession"]
-NAMESPACES = ["Pams.C09", "Pams.C09", "Pams.C09"]
+LEAN_MODULES = ["PamsProps.C09", "PamsProps.SimE2E", "PamsProps.SrcSession", "PamsProps.SrcRunner"]
+NAMESPACES = ["Pams.C09", "Pams.C09", "Pams.C09", "Pams.C09"]
 DRIVERS = ["Runner", "Sim", "PyRun"]
 TRUSTED = [
     "scheduler model treats markets, agents, user events and random draws as oracles (tape recorded from the real run through public extension points: simulator_class, registered agent/market/event classes, prng subclass, Logger subclass)",
@@ -17,7 +17,7 @@ def run(ctx, model_available=True):
     res = runner_props.run_runner_property(ctx, PROP, model_available=model_available)
     # (T2) the translated source of Session.setup under the mini-Python semantics, against CPython
     import py_checks
-    return py_checks.merge(res, ctx, ["session"], n_each=150, model_available=model_available)
+    return py_checks.merge(res, ctx, ["session", "runner"], n_each=150, model_available=model_available)
 
 
 def search(ctx, res):
